@@ -1232,6 +1232,9 @@ func inTmplExecute(ex *Exec, fn *ssa.Function, args []Value, g *Term, where stri
 		unsupported("Execute on %T at %s", args[0], where)
 	}
 	text := h.Args[0].(*Term)
+	if h.Nil != nil {
+		ex.panicIf(And(g, h.Nil), "Execute on a nil template at "+where)
+	}
 	w, ok := args[1].(*IfaceVal)
 	if !ok || !namedIs(w.Typ, "bytes", "Buffer") {
 		unsupported("Execute into %T at %s", args[1], where)
